@@ -28,8 +28,8 @@ ASSUMPTIONS = [
     "histories stay within the 1,000-entry duplicate-suppression window",
     "the harness owns the clock and calls resend_unacked() itself (the production asyncio sleep loop is not exercised)",
 ]
-EXHAUSTIVE_PARTS = {"quick": ["all sequences of 14 concrete events to depth 5, circuit alive flag both ways"],
-                    "thorough": ["all sequences of 14 concrete events to depth 6, circuit alive flag both ways"]}
+EXHAUSTIVE_PARTS = {"quick": ["all sequences of 16 concrete events to depth 5, circuit alive flag both ways"],
+                    "thorough": ["all sequences of 16 concrete events to depth 6, circuit alive flag both ways"]}
 FLOORS = {"quick": {"h_nontrivial": 3000, "retransmission": 2000, "completed_by_ack": 1000, "timed_out": 4}}
 MANIFEST = {
     "text": "Bounded-exhaustive enumeration of arrival/ack/send/clock events plus random walks on the real client endpoint, with "
@@ -78,6 +78,7 @@ class Harness:
         self.peer = {}                   # peer pid -> dict(name, reliable)
         self.peer_next = 1
         self.delayed = []
+        self.waiters = {}
         self.seen_emitted = 0
         self.client_sends = {}           # client pid -> dict(reliable, state, tx, last, tries_left, future)
         self.last_new_pid = -1
@@ -144,6 +145,28 @@ class Harness:
         self.flags.add("reordered_arrival")
         return self._deliver(pid, resent=False)
 
+    def ev_waiters(self, tag, name_idx):
+        """two one-shot waiters (message_handler.wait_for) for the same message name: each is a subscriber like any other and
+        un-subscribes itself while the event is being dispatched"""
+        handler = self.session.message_handler if tag == "session" else self.region.message_handler
+        name = NAMES[name_idx]
+        for _ in range(2):
+            self.waiters.setdefault((tag, name), []).append(handler.wait_for((name,), take=False))
+        self.flags.add("waiters")
+        return []
+
+    def ev_retransmit_with_acks(self, which, pick):
+        """the peer retransmits a reliable packet the client has already handled and piggy-backs acknowledgements on that copy"""
+        cands = sorted(p for p, i in self.peer.items() if i["reliable"] and self.arrivals[p] >= 1)
+        outstanding = [i for i, r in self.client_sends.items() if r["reliable"] and r["state"] == "pending"]
+        if not cands or not outstanding:
+            return None
+        pid = cands[which % len(cands)]
+        ids = outstanding[:1] if pick == "oldest" else outstanding[:4]
+        self.flags.add("retransmission")
+        self.flags.add("acks_on_retransmission")
+        return self._deliver(pid, resent=True, acks=ids)
+
     def ev_retransmit(self, which, copies, resent_flag):
         cands = sorted(self.peer)
         if not cands:
@@ -191,6 +214,12 @@ class Harness:
                     out.append(("dispatch:%s:%s:%s" % (kind, tag, "wildcard" if sub == "*" else "named"),
                                 "%s subscriber %r got copy #%d of %s packet %d %d times (expected %d)" % (
                                     tag, sub, self.arrivals[pid], "reliable" if info["reliable"] else "unreliable", pid, delta, expected)))
+                if sub != "*" and expected == 1:
+                    for w in self.waiters.pop((tag, info["name"]), []):
+                        if not w.done():
+                            out.append(("dispatch:lost:%s:waiter" % tag, "a wait_for() waiter for %s on the %s handler did not get %s packet %d "
+                                        "although it was dispatched" % (info["name"], tag, "reliable" if info["reliable"] else "unreliable", pid)))
+                            w.cancel()
         self._apply_acks(acks)
         out.extend(self._check_futures())
         return out
@@ -326,6 +355,10 @@ class Harness:
             r = self.ev_recv(ev[1], ev[2] if len(ev) > 2 else 0)
         elif k == "rtx":
             r = self.ev_retransmit(ev[1], ev[2], ev[3])
+        elif k == "waiters":
+            r = self.ev_waiters(ev[1], ev[2])
+        elif k == "rtxack":
+            r = self.ev_retransmit_with_acks(ev[1], ev[2])
         elif k == "skip":
             r = self.ev_skip(ev[1])
         elif k == "late":
@@ -353,6 +386,10 @@ class Harness:
         return sorted(cls)
 
     def teardown(self):
+        for ws in self.waiters.values():
+            for w in ws:
+                if not w.done():
+                    w.cancel()
         for rec in self.client_sends.values():
             f = rec["future"]
             if f is not None and f.done() and not f.cancelled():
@@ -363,6 +400,7 @@ ALPHABET = [
     ("recv", True, 0), ("recv", False, 1), ("rtx", -1, 1, True), ("rtx", 0, 2, False),
     ("csend", True), ("csend", False), ("ack", "appended", "all"), ("ack", "body", "newest"), ("ack", "both", "recent"),
     ("ack", "body", "unknown"), ("tick", 3.1), ("noise", "banned"), ("skip", True), ("late",),
+    ("waiters", "session", 0), ("rtxack", 0, "oldest"),
 ]
 
 
@@ -427,6 +465,8 @@ EV = st.one_of(
     st.tuples(st.just("rtx"), st.integers(-3, 3), st.integers(1, 3), st.booleans()),
     st.tuples(st.just("csend"), st.booleans()), st.tuples(st.just("csend"), st.just(True)),
     st.tuples(st.just("skip"), st.booleans()), st.tuples(st.just("late")),
+    st.tuples(st.just("waiters"), st.sampled_from(["session", "region"]), st.integers(0, 1)),
+    st.tuples(st.just("rtxack"), st.integers(0, 3), st.sampled_from(["oldest", "all"])),
     st.tuples(st.just("ack"), st.sampled_from(["appended", "body", "both"]), st.sampled_from(["all", "oldest", "newest", "dup", "unknown", "recent"])),
     st.tuples(st.just("tick"), st.sampled_from([3.1, 1.0, 3.0, 7.0])),
     st.tuples(st.just("noise"), st.sampled_from(["malformed", "banned", "unknown_host"])),
